@@ -33,6 +33,20 @@ def get_model(pb, rs):
     return m
 
 
+def check_global_state(ctx, where):
+    """Reads must not leave process-global state behind: the warnings filters are what the
+    stream-opening code touches (baseband's format auto-detection uses
+    warnings.catch_warnings(), which is not thread-safe)."""
+    import warnings
+    w0 = getattr(ctx, "_warn0", None)
+    if w0 is not None and list(warnings.filters) != w0:
+        now = [(f[0], getattr(f[2], "__name__", str(f[2]))) for f in warnings.filters[:3]]
+        ctx.violate("global-state-changed", "reads:warnings.filters",
+                    f"{where}: the process-wide warnings filters changed during concurrent reads "
+                    f"(now starting with {now}); later reads that emit any warning will raise",
+                    {"state": "warnings.filters"})
+
+
 class Stop(BaseException):
     """Unwinds the remaining simulated threads after a violation."""
 
@@ -373,6 +387,7 @@ class Client:
                     if isinstance(e, SimOSError):
                         ctx.probe("injected_error_propagated_unchanged")
                     continue
+                check_global_state(ctx, f"{who} raised {type(e).__name__}")
                 ctx.violate("unexpected-exception", f"{model.rs['cls']}.{kind}:raises",
                             f"{who} {call}: {type(e).__name__}: {e}")
             else:
@@ -411,10 +426,12 @@ def _boundaries(model, fspec):
     return sorted(set(x for x in b if 0 < x < L))
 
 
-def run_files(ctx, faults=False):
+def run_files(ctx, faults=False, deep=False):
+    import warnings
     pb = core.setup_imports()
     files.workdir()
     tape = ctx.tape
+    ctx._warn0 = list(warnings.filters)
     nread = 1 + tape.weighted([3, 1], "nreaders")
     fspecs, rss, models = [], [], []
     for i in range(nread):
@@ -428,7 +445,9 @@ def run_files(ctx, faults=False):
             fs = dict(fspecs[0], seed=(fspecs[0]["seed"] + 1 + tape.draw(7, "f1.sibseed")) % 4096)
             ctx.probe("sibling_readers_same_geometry")
         else:
-            fs = files.gen_file_spec(tape, label=f"f{i}")
+            fs = files.gen_file_spec(tape, label=f"f{i}", kinds=[
+                "sample_guppi", "vdif_real", "dada_complex", "guppi", "sample_dada", "vdif_complex",
+                "dada_multi"] if deep else None)
         rs = files.reader_spec(fs)
         m = get_model(pb, rs)
         m.boundaries = _boundaries(m, fs)
@@ -438,13 +457,27 @@ def run_files(ctx, faults=False):
     switch = [1, 0, 4, 8][tape.draw(4, "switch")]
     nthreads = 1 + (tape.weighted([2, 3, 2, 1], "nthreads") if ctx.tier == "quick"
                     else tape.weighted([2, 3, 3, 2, 1, 1], "nthreads"))
-    sched = Sched(ctx, switch_eighths=switch)
+    if deep:
+        # pre-emption also at every line of the dependency that opens and decodes the files:
+        # many more yield points per read, so fewer threads/calls and a low switch rate
+        switch = [1, 2][tape.draw(2, "deep.switch")]
+        nthreads = 2 + tape.draw(2, "deep.nthreads")
+        sched = Sched(ctx, switch_eighths=switch, tool_id=1, packages=("baseband",), max_steps=2000000)
+    else:
+        sched = Sched(ctx, switch_eighths=switch)
     sched.stop = False
     fault_rate = 0
     if faults:
         fault_rate = [2, 1, 6][tape.draw(3, "fault_rate")]
     io = iosim.IOSim(ctx, sched, fault_eighths=fault_rate)
     lock = SimLock(sched) if tape.chance(1, 2, "uselock") else None
+    deep_all_locked = False
+    if deep:
+        # one run in three: EVERY read takes the shared lock (then nothing may go wrong: that
+        # is what lock= is documented for); otherwise no read takes it
+        deep_all_locked = tape.chance(1, 3, "deep.all_locked")
+        lock = SimLock(sched) if deep_all_locked else None
+        ctx._deep_unlocked = not deep_all_locked
     history = []
     case = {"files": fspecs, "readers": rss, "threads": [], "switch_eighths": switch,
             "io_fault_rate_64ths": fault_rate, "shared_lock": lock is not None}
@@ -461,12 +494,37 @@ def run_files(ctx, faults=False):
                             f"{ {k: v for k, v in rs.items() if k != 'name'} } raised {type(e).__name__}: {e}")
         for m, r in zip(models, readers):
             check_static(ctx, m, r)
+        if deep:
+            # warm-up outside the simulation: first-use paths inside the dependency (format
+            # registries, lazy imports, warning registries) must not depend on what this
+            # process ran before, or the run would not replay in a fresh interpreter
+            for r in readers:
+                for _ in range(2):
+                    r.read(0, min(2, len(r)))
         base_dicts = [snapshot.snap_reader(r) for r in readers]
         clients = []
         for ti in range(nthreads):
             ncalls = 1 + tape.draw(5 if ctx.tier == "quick" else 9, f"t{ti}.ncalls")
+            if deep:
+                ncalls = 1 + tape.draw(2, f"t{ti}.ncalls.deep")
             prog = gen_program(tape, nread, [m.length for m in models],
                                [m.boundaries for m in models], f"t{ti}", ncalls, lock is not None)
+            if deep:
+                for c in prog:      # plain reads only: the point is the interleaving inside them
+                    if c["kind"] not in ("read", "dask_read"):
+                        o, n = gen_offsets(tape, models[c["reader"]].length, models[c["reader"]].boundaries,
+                                           f"t{ti}.deepread")
+                        c.clear()
+                        c.update(kind="read", reader=0 if nread == 1 else tape.draw(nread, f"t{ti}.dr"),
+                                 o=o, n=n)
+                    c["o"] = min(c["o"], models[c["reader"]].length)
+                    c["n"] = min(c["n"], models[c["reader"]].length - c["o"])
+                    if c["kind"] == "read":
+                        c["lock"] = deep_all_locked
+                    elif deep_all_locked:
+                        c["kind"] = "read"
+                        c["lock"] = True
+                        c.pop("chunks", None)
             case["threads"].append(prog)
             c = Client(ctx, f"T{ti}", prog, readers, models, sched, lock, faults, history)
             clients.append(c)
@@ -513,6 +571,7 @@ def run_files(ctx, faults=False):
         for t in sched.threads:
             if t.exc is not None and not isinstance(t.exc, (Stop, Abandon)):
                 raise t.exc
+        check_global_state(ctx, "after all callers finished")
         if io.open_handles != 0:
             ctx.probe("handle_left_open_after_all_calls")
         # fault-free epilogue: every reader still answers correctly, within budget
@@ -552,6 +611,25 @@ def run_files(ctx, faults=False):
 
 def run_files_faults(ctx):
     return run_files(ctx, faults=True)
+
+
+def run_files_deep(ctx):
+    """Pre-emption also inside baseband. Without lock= the callers interleave inside
+    baseband.open(), which is not thread-safe (warnings.catch_warnings in the format
+    auto-detection, shared state while opening file sequences, ...): whatever goes wrong there
+    -- an exception out of a read, process-global state left changed -- is ONE finding about
+    the call site 'readers open per read through baseband without a lock', rooted in the
+    dependency. Wrong data, and anything at all when every read holds the shared lock, is
+    reported under its own name."""
+    try:
+        return run_files(ctx, faults=False, deep=True)
+    except core.Violation as v:
+        if getattr(ctx, "_deep_unlocked", False) and v.kind in ("unexpected-exception",
+                                                               "global-state-changed"):
+            ctx.log("umbrella", v.kind, v.site)
+            raise core.Violation("dependency-race", "baseband.open:concurrent-reads-without-lock",
+                                 f"{v.kind} @ {v.site}: {v.detail}", {"scenario": "files_deep"})
+        raise
 
 
 # ---------------------------------------------------------------------------
